@@ -1273,11 +1273,11 @@ MODELS = [
     (r'<.* as ' + P + r'convert::TryInto<.*>>::try_into', M_try_into),
     (r'<.* as ' + P + r'convert::Into<.*>>::into', M_int_into),
     (P + r'char::methods::<impl char>::to_digit', M_char_to_digit), (P + r'num::<impl u32>::pow', M_u32_pow),
-    (P + r'f64::<impl f64>::is_nan|' + P + r'num::<impl f64>::is_nan', M_f64_is_nan),
-    (P + r'f64::<impl f64>::is_infinite|' + P + r'num::<impl f64>::is_infinite', M_f64_is_infinite),
-    (P + r'f64::<impl f64>::is_finite|' + P + r'num::<impl f64>::is_finite', M_f64_is_finite),
-    (P + r'f64::<impl f64>::is_sign_negative|' + P + r'num::<impl f64>::is_sign_negative', M_f64_is_sign_negative),
-    (P + r'f64::<impl f64>::is_sign_positive|' + P + r'num::<impl f64>::is_sign_positive', M_f64_is_sign_positive),
+    (P + r'f(?:64|32)::<impl f(?:64|32)>::is_nan|' + P + r'num::<impl f(?:64|32)>::is_nan', M_f64_is_nan),
+    (P + r'f(?:64|32)::<impl f(?:64|32)>::is_infinite|' + P + r'num::<impl f(?:64|32)>::is_infinite', M_f64_is_infinite),
+    (P + r'f(?:64|32)::<impl f(?:64|32)>::is_finite|' + P + r'num::<impl f(?:64|32)>::is_finite', M_f64_is_finite),
+    (P + r'f(?:64|32)::<impl f(?:64|32)>::is_sign_negative|' + P + r'num::<impl f(?:64|32)>::is_sign_negative', M_f64_is_sign_negative),
+    (P + r'f(?:64|32)::<impl f(?:64|32)>::is_sign_positive|' + P + r'num::<impl f(?:64|32)>::is_sign_positive', M_f64_is_sign_positive),
     (r'<[iu](?:8|16|32|64|128|size) as ' + P + r'clone::Clone>::clone|<bool as ' + P + r'clone::Clone>::clone', M_clone),
     (r'<(?:&.*|' + P + r'(?:option::Option|result::Result|vec::Vec|string::String|boxed::Box|collections::\w+)<?.*>?) as ' + P + r'clone::Clone>::clone', M_clone),
     (r'<' + P + r'option::Option<.*> as ' + P + r'cmp::PartialEq>::eq', M_prim_eq), (r'<' + P + r'option::Option<.*> as ' + P + r'cmp::PartialEq>::ne', M_prim_ne),
